@@ -53,7 +53,8 @@ Proof.
            | |- context [match ?d with _ => _ end] => destruct d
            end;
     try reflexivity;
-    try (rewrite inst_of_upd; match goal with |- context [?a =? j] => destruct (Z.eqb_spec a j); [subst|]; reflexivity end).
+    repeat rewrite inst_of_upd;
+    repeat match goal with |- context [?a =? j] => destruct (Z.eqb_spec a j); [subst|] end; reflexivity.
 Qed.
 
 Lemma neutral_cfg b t e : cb_neutral e = true -> b_cfgs (bapply b (t, e)) = b_cfgs b.
@@ -78,7 +79,7 @@ Lemma has_cbs_same b t e j :
   has_cbs (bapply b (t, e)) j = has_cbs b j.
 Proof. intros H. unfold has_cbs, cfg_of. rewrite (cfgs_same _ _ _ H). reflexivity. Qed.
 
-Lemma CB_step b te : CB b -> guards b te = [] -> CB (bapply b te).
+Lemma CB_step b te : CB b -> guards0 b te = [] -> CB (bapply b te).
 Proof.
   intros C G. destruct te as [t e].
   destruct (cb_neutral e) eqn:En.
@@ -135,7 +136,7 @@ Proof.
 Qed.
 
 (* strict alternation, starting with a promotion *)
-Lemma C08_alternation_local b te : CB b -> guards b te = [] -> forall m, ~ In 801 (mon_C08 b m te) /\ ~ In 802 (mon_C08 b m te).
+Lemma C08_alternation_local b te : CB b -> guards0 b te = [] -> forall m, ~ In 801 (mon_C08 b m te) /\ ~ In 802 (mon_C08 b m te).
 Proof.
   intros C G m. destruct te as [t e].
   destruct e; cbn [mon_C08 snd]; try (split; intros []).
@@ -169,5 +170,5 @@ Proof.
   - cbn in A. destruct (guards b x) eqn:G; [|discriminate].
     destruct pre as [|y pre]; cbn in E.
     + inversion E. subst x post. cbn. auto.
-    + inversion E. subst y. cbn [fold_left]. eapply IH; eauto. apply CB_step; assumption.
+    + inversion E. subst y. cbn [fold_left]. eapply IH; eauto. apply CB_step; [assumption|apply guards_split in G; tauto].
 Qed.
